@@ -453,6 +453,8 @@ ConfLax(op, st, a, o) ==
     [] op = "lax.roundtrip_lax" -> IF LaxIsStrict(pre) THEN ValIs(o, pre) ELSE IsVal(o) /\ LaxIso(o.val, Strictify(pre))
     [] op = "lax.empty" -> ValIs(o, LaxEmpty)
     [] op = "lax.unit" -> ValIs(o, <<>>)
+    \* the discrete lax hypergraph on a list of labels (shown with empty interfaces)
+    [] op = "lax.h.discrete" -> ValIs(o, [LaxEmpty EXCEPT !.nodes = a.w])
     [] op = "lax.tensor" \/ op = "lax.tensor_bitor" -> ValIs(o, LTensor(a.f, a.g))
     [] op = "lax.tensor3" -> /\ IsVal(o) /\ o.val.lhs = o.val.rhs /\ o.val.lhs = LTensor(LTensor(a.f, a.g), a.h)
                              /\ o.val.ul = a.f /\ o.val.ur = a.f
@@ -491,7 +493,7 @@ GraphOps == {"arrow.is_convex_subgraph", "arrow.is_monomorphism", "arrow.new", "
 FunctorOps == {"functor.identity", "functor.laws", "functor.map_arrow", "functor.map_object", "laxf.dyn_map_arrow", "laxf.identity", "laxf.map_arrow_witness", "laxf.try_define_map_arrow"}
 OpticOps == {"laxf.optic_map_adapted", "laxf.optic_map_arrow", "optic.eval_adapted", "optic.laws", "optic.map_adapted", "optic.map_arrow"}
 VarOps == {"var.script_eval", "var.forget", "var.forget_eval", "var.forget_monogamous", "var.script"}
-LaxOps == {"lax.reset", "lax.set_interfaces", "lax.add_edge_source", "lax.add_edge_target", "lax.append", "lax.compose", "lax.compose_shr", "lax.dagger", "lax.delete_edges", "lax.delete_nodes", "lax.empty", "lax.unit", "lax.from_strict", "lax.h.coequalizer", "lax.h.coproduct_assign", "lax.h.delete_edge", "lax.h.delete_nodes", "lax.h.delete_nodes_witness", "lax.h.quotient", "lax.h.to_hypergraph", "lax.half_spider", "lax.identity", "lax.is_strict", "lax.lax_compose", "lax.map_edges", "lax.map_nodes", "lax.new_edge", "lax.new_node", "lax.new_operation", "lax.quotient", "lax.quotient_witness", "lax.roundtrip_lax", "lax.roundtrip_strict", "lax.serde_roundtrip", "lax.singleton", "lax.source", "lax.spider", "lax.target", "lax.tensor", "lax.tensor3", "lax.tensor_assign", "lax.tensor_bitor", "lax.to_open_hypergraph", "lax.to_strict", "lax.twist", "lax.unify", "lax.with_edges", "lax.with_nodes"}
+LaxOps == {"lax.reset", "lax.set_interfaces", "lax.add_edge_source", "lax.add_edge_target", "lax.append", "lax.compose", "lax.compose_shr", "lax.dagger", "lax.delete_edges", "lax.delete_nodes", "lax.empty", "lax.unit", "lax.from_strict", "lax.h.coequalizer", "lax.h.coproduct_assign", "lax.h.delete_edge", "lax.h.delete_nodes", "lax.h.delete_nodes_witness", "lax.h.discrete", "lax.h.quotient", "lax.h.to_hypergraph", "lax.half_spider", "lax.identity", "lax.is_strict", "lax.lax_compose", "lax.map_edges", "lax.map_nodes", "lax.new_edge", "lax.new_node", "lax.new_operation", "lax.quotient", "lax.quotient_witness", "lax.roundtrip_lax", "lax.roundtrip_strict", "lax.serde_roundtrip", "lax.singleton", "lax.source", "lax.spider", "lax.target", "lax.tensor", "lax.tensor3", "lax.tensor_assign", "lax.tensor_bitor", "lax.to_open_hypergraph", "lax.to_strict", "lax.twist", "lax.unify", "lax.with_edges", "lax.with_nodes"}
 \* an operation reached through a categorical trait is judged as the operation itself
 BaseOp(op) == CASE op = "strict.source_trait" -> "strict.source" [] op = "strict.target_trait" -> "strict.target"
                 [] op = "strict.identity_trait" -> "strict.identity" [] op = "strict.spider_trait" -> "strict.spider"
